@@ -388,6 +388,14 @@ func TestReuse(t *testing.T) {
 			c.BPalette = gen.Palette(t, "bpal", true)
 		}
 		c.BOps, c.BHi = genB(t)
+		if rapid.IntRange(0, 3).Draw(t, "areset") == 0 {
+			// A ends with a Reset to B's viewBox moved elsewhere (same size, same scale, other origin)
+			dx := float32(rapid.IntRange(-30, 30).Draw(t, "avdx"))
+			dy := float32(rapid.IntRange(-30, 30).Draw(t, "avdy"))
+			vb := ivg.ViewBox{MinX: float32(c.BViewBox[0]) + dx, MinY: float32(c.BViewBox[1]) + dy, MaxX: float32(c.BViewBox[2]) + dx, MaxY: float32(c.BViewBox[3]) + dy}
+			c.AOps = append(c.AOps, ops.OpReset(vb, ivg.DefaultPalette), ops.OpStartPath(0, 1, 1), ops.OpDraw(ops.AbsLineTo, 3, 4))
+			labels = append(labels, "A-resets-to-a-shifted-viewbox")
+		}
 		c.Rect = [4]int{rapid.IntRange(0, 5).Draw(t, "rx"), rapid.IntRange(0, 5).Draw(t, "ry"), rapid.SampledFrom([]int{16, 48, 64, 96, 200}).Draw(t, "rw"), rapid.SampledFrom([]int{16, 48, 64, 96, 300}).Draw(t, "rh")}
 		subReuse.See(c, len(labels) > 0, harness.HashJSON(c), labels...)
 		subReuse.Run(t, c)
